@@ -376,6 +376,27 @@ def runnerDoneFirst : Prog := [
 
 end Programs
 
+/-! ### typed effect lists (compared by Tie.lean with the order of effects extracted from the Go source) -/
+
+/-- the property-relevant effect of an instruction (control-flow rows have none). -/
+inductive Eff where
+  | acquire | tryAcquire | release | tryRelease | wgAdd | wgDone | wgWait | user
+  deriving Repr, DecidableEq
+
+def Instr.eff : Instr → Option Eff
+  | .acquire => some .acquire
+  | .tryAcquire _ => some .tryAcquire
+  | .release => some .release
+  | .tryRelease => some .tryRelease
+  | .wgAdd => some .wgAdd
+  | .wgDone => some .wgDone
+  | .wgWait => some .wgWait
+  | .user _ => some .user
+  | _ => none
+
+/-- the effects of a site program in the syntactic order of its rows (= of the Go source). -/
+def Prog.effects (p : Prog) : List Eff := p.filterMap (·.instr.eff)
+
 /-! ## 2b. configuration decision tables -/
 
 /-- `mr.WithWorkers(k)` / `fx.WithWorkers(k)`: `if workers < minWorkers { opts.workers = minWorkers } else
